@@ -345,6 +345,7 @@ func c03Feature(c c03Case, key string, k int, loc gts.Location, dBase refmodel.A
 		return "malformed-location", what + fmt.Sprintf(" = %s is not a well-formed location", locdom.Encode(f.Loc))
 	}
 	what += " = " + printLoc(f.Loc)
+	engine.Outcome(printLoc(f.Loc))
 	if !obs.InRange(L2) {
 		return "out-of-range", what + " refers to a position outside the new sequence of length " + fmt.Sprint(L2)
 	}
